@@ -26,6 +26,7 @@ import (
 type c03member struct {
 	note    bool
 	builtin bool // a call to rpc.serverInfo: no harness handler, observed through its reply
+	nullID  bool // a notification spelled with an explicit "id":null
 	tag     string
 	id      int
 }
@@ -35,7 +36,7 @@ type c03msg struct {
 	batch   bool
 }
 
-var c03alphabet = []string{"N", "C", "NC", "NN", "CC", "CNC", "CN", "B"}
+var c03alphabet = []string{"N", "C", "NC", "NN", "CC", "CNC", "CN", "B", "Z", "ZC"}
 
 func c03build(script []string) (msgs []c03msg, tags []string) {
 	id := 0
@@ -43,7 +44,7 @@ func c03build(script []string) (msgs []c03msg, tags []string) {
 		var m c03msg
 		m.batch = len(sym) > 1
 		for j, ch := range sym {
-			mem := c03member{note: ch == 'N', builtin: ch == 'B', tag: fmt.Sprintf("m%d.%d", i, j)}
+			mem := c03member{note: ch == 'N' || ch == 'Z', nullID: ch == 'Z', builtin: ch == 'B', tag: fmt.Sprintf("m%d.%d", i, j)}
 			if !mem.note {
 				id++
 				mem.id = id
@@ -68,6 +69,9 @@ func (m c03msg) wire() string {
 		if mem.builtin {
 			parts = append(parts, peer.Req(id, "rpc.serverInfo", ""))
 			continue
+		}
+		if mem.nullID {
+			id = "null"
 		}
 		parts = append(parts, peer.Req(id, "g", mem.tag))
 	}
@@ -180,6 +184,45 @@ type c03run struct {
 	conc   int
 	order  []string
 	ctrl   *sched.Controller
+	stopAt int // Stop() is called before the stopAt-th release (0 = right after arrival); -1 = never
+}
+
+// c03orderOnly checks clause (i) on timestamps for whatever has run, and that
+// every notification ran exactly once (after a stop, calls may be dropped).
+func c03afterStop(c *vt.Ctx, log *peer.Log, msgs []c03msg, when string, final bool) {
+	enter, exit := map[string]int64{}, map[string]int64{}
+	for _, e := range log.Events() {
+		switch e.Kind {
+		case "h.enter":
+			if _, dup := enter[e.Tag]; dup {
+				c.Failf("%s: handler for %s entered twice", when, e.Tag)
+			}
+			enter[e.Tag] = e.T
+		case "h.exit":
+			exit[e.Tag] = e.T
+		}
+	}
+	for i, m := range msgs {
+		for _, mem := range m.members {
+			if !mem.note {
+				continue
+			}
+			if final && exit[mem.tag] == 0 {
+				c.Failf("%s: notification %s (received before the stop) never completed", when, mem.tag)
+			}
+			for j := i + 1; j < len(msgs); j++ {
+				for _, later := range msgs[j].members {
+					en, started := enter[later.tag]
+					if !started {
+						continue
+					}
+					if ex, done := exit[mem.tag]; !done || en < ex {
+						c.Failf("%s: %s (message %d) entered at t=%d although notification %s (message %d) had not returned", when, later.tag, j, en, mem.tag, i)
+					}
+				}
+			}
+		}
+	}
 }
 
 func c03exec(c *vt.Ctx, r c03run) {
@@ -192,15 +235,29 @@ func c03exec(c *vt.Ctx, r c03run) {
 		}
 		rig.Settle()
 		c03state(c, rig, msgs, effConc, "after arrival")
+		stopped := false
 		for k, tag := range r.order {
+			if r.stopAt == k {
+				rig.Srv.Stop()
+				rig.Settle()
+				stopped = true
+			}
 			rig.H.Release(tag)
 			rig.Settle()
-			c03state(c, rig, msgs, effConc, fmt.Sprintf("after release %d (%s)", k, tag))
+			if stopped {
+				c03afterStop(c, rig.Log, msgs, fmt.Sprintf("after Stop and release %d (%s)", k, tag), false)
+			} else {
+				c03state(c, rig, msgs, effConc, fmt.Sprintf("after release %d (%s)", k, tag))
+			}
 		}
 		if _, ok := rig.Finish(); !ok {
 			c.Failf("server did not exit after the peer closed")
 		}
-		c03final(c, rig.Log, msgs)
+		if stopped {
+			c03afterStop(c, rig.Log, msgs, "final (stopped)", true)
+		} else {
+			c03final(c, rig.Log, msgs)
+		}
 		c.Count("events", rig.Log.Len())
 		c.Count("handler_runs", int(rig.H.Invocations()))
 	})
@@ -211,7 +268,7 @@ func init() {
 	vt.Register(&vt.Check{
 		Prop:  "C03",
 		Level: "exploration",
-		Rule: "scripts = all sequences (length<=L) of gated messages over {N,C,[N,C],[N,N],[C,C],[C,N,C],[C,N], built-in call rpc.serverInfo} sent back to back to a real server, " +
+		Rule: "scripts = all sequences (length<=L) of gated messages over {N,C,[N,C],[N,N],[C,C],[C,N,C],[C,N], built-in call rpc.serverInfo, notification spelled with \"id\":null, [null-id notification, C]}, also with Stop() issued while later messages are still queued (retained notifications must keep arrival order) sent back to back to a real server, " +
 			"x Concurrency {1,2,8} x every release order of the gates (<=4 gates; seeded orders beyond), oracle at every quiescent point; " +
 			"plus delay-bounded schedules (every single hook visit parked, pairs in thorough) and seeded perturbation. " +
 			"distinct_nontrivial = distinct (script, concurrency, release order, delay set) executions that contained at least one notification followed by a later message",
@@ -226,7 +283,7 @@ func init() {
 
 func c03nontrivial(script []string) bool {
 	for i, s := range script {
-		if strings.Contains(s, "N") && i < len(script)-1 {
+		if (strings.Contains(s, "N") || strings.Contains(s, "Z")) && i < len(script)-1 {
 			return true
 		}
 	}
@@ -243,14 +300,17 @@ func c03cases(e vt.Env, yield func(vt.Case) bool) {
 		for i, k := range idx {
 			script[i] = c03alphabet[k]
 		}
-		for _, conc := range concs {
+		for ci, conc := range concs {
+			if !e.Thorough() && len(idx) >= 3 && int(vt.Hash64(join(script))%3) != ci {
+				continue // quick: one concurrency setting per three-message script
+			}
 			script, conc := append([]string(nil), script...), conc
 			id := fmt.Sprintf("E1/%s/c%d", join(script), conc)
 			ok = yield(vt.Case{ID: id, Run: func(c *vt.Ctx) {
 				_, tags := c03build(script)
 				rng := e.Rand(id)
 				for _, ord := range orders(tags, 4, e.Pick(6, 12), rng) {
-					c03exec(c, c03run{script: script, conc: conc, order: ord, ctrl: sched.New()})
+					c03exec(c, c03run{script: script, conc: conc, order: ord, ctrl: sched.New(), stopAt: -1})
 					if c03nontrivial(script) {
 						c.Distinct(id + "/" + join(ord))
 					}
@@ -259,6 +319,20 @@ func c03cases(e vt.Env, yield func(vt.Case) bool) {
 					}
 					if c.Failed() {
 						return
+					}
+				}
+				// Stop with messages still queued behind a running notification: the
+				// notifications retained at shutdown must still run in arrival order
+				if len(script) >= 2 && c03nontrivial(script) {
+					for _, stopAt := range []int{0, 1} {
+						if stopAt >= len(tags) {
+							continue
+						}
+						c03exec(c, c03run{script: script, conc: conc, order: tags, ctrl: sched.New(), stopAt: stopAt})
+						c.Distinct(fmt.Sprintf("%s/stop%d", id, stopAt))
+						if c.Failed() {
+							return
+						}
 					}
 				}
 			}})
@@ -296,12 +370,12 @@ func c03cases(e vt.Env, yield func(vt.Case) bool) {
 				}
 				for oi, ord := range [][]string{tags, rev} {
 					prof := sched.New()
-					c03exec(c, c03run{script: script, conc: conc, order: ord, ctrl: prof})
+					c03exec(c, c03run{script: script, conc: conc, order: ord, ctrl: prof, stopAt: -1})
 					if c.Failed() {
 						return
 					}
 					sched.DelaySets(prof.Keys(), d, func(ds []string) bool {
-						c03exec(c, c03run{script: script, conc: conc, order: ord, ctrl: sched.New().WithDelays(ds...)})
+						c03exec(c, c03run{script: script, conc: conc, order: ord, ctrl: sched.New().WithDelays(ds...), stopAt: -1})
 						c.Distinct(fmt.Sprintf("%s/o%d/%s", id, oi, join(ds)))
 						if c.WantSample() {
 							c.Sample(map[string]any{"script": script, "concurrency": conc, "release_order": ord, "parked_at": ds})
@@ -337,7 +411,7 @@ func c03cases(e vt.Env, yield func(vt.Case) bool) {
 			r := e.Rand(fmt.Sprint(id, s1, s2))
 			ord := append([]string(nil), tags...)
 			r.Shuffle(len(ord), func(a, b int) { ord[a], ord[b] = ord[b], ord[a] })
-			c03exec(c, c03run{script: script, conc: conc, order: ord, ctrl: sched.New().WithPerturb(p, r)})
+			c03exec(c, c03run{script: script, conc: conc, order: ord, ctrl: sched.New().WithPerturb(p, r), stopAt: r.IntN(len(ord)+2) - 1})
 			if c03nontrivial(script) {
 				c.Distinct(id)
 			}
